@@ -110,6 +110,37 @@ func kernelsKoalabear(c *mon.Ctx) {
 		}
 		c.Class(fmt.Sprintf("%s/Poseidon2/t%d-rf%d-rp%d", N, ps[0], ps[1], ps[2]))
 	}
+	// parameter grid through both constructors: the vectorised kernels are specialised for a few (width, rounds)
+	// triples and selected by flags computed in the constructors; every other triple must take the portable rounds
+	for _, t := range []int{16, 24} {
+		for _, rf := range []int{6, 8} {
+			for _, rp := range []int{12, 13, 19, 20, 21, 22, 23} {
+				for ctor := 0; ctor < 2; ctor++ {
+					if !c.Thorough() && (t+rf+rp+ctor)%2 == 1 && rp != 21 && rp != 22 {
+						continue
+					}
+					var h *poseidon2.Permutation
+					name := "NewPermutation"
+					if ctor == 1 {
+						name = "NewPermutationWithSeed"
+						h = poseidon2.NewPermutationWithSeed(t, rf, rp, "c09-grid-seed")
+					} else {
+						h = poseidon2.NewPermutation(t, rf, rp)
+					}
+					for k := 0; k < 3; k++ {
+						in := rnd(t)
+						rec(c, fmt.Sprintf("%s/Poseidon2.Permutation/grid/%s/t%d-rf%d-rp%d/%d", N, name, t, rf, rp, k), func() []byte {
+							if err := h.Permutation(in); err != nil {
+								return []byte("error:" + err.Error())
+							}
+							return rawBytes(in)
+						})
+					}
+				}
+			}
+		}
+	}
+	c.Class(N + "/Poseidon2/parameter-grid")
 	{
 		h := poseidon2.NewPermutation(16, 6, 21)
 		for k := 0; k < c.Pick(6, 40); k++ {
